@@ -71,6 +71,8 @@ def cases(tier):
     for form in ('name', 'class', 'qualified'):
         for depth in (0, 1, 2):
             out.append(('deps', form, depth))
+    for m in ('root', 'train', 'a::b'):
+        out.append(('conc', 'shortform', m))
     if tier == 'thorough':
         for sh in itertools.product(SHAPES1, repeat=4):
             for q in queries(sh):
@@ -141,6 +143,11 @@ def run_case(case, tier):
         # a dependant's inputs are resolved through Chain._process_dependencies: same symbolic harness as C08 (a)
         from checks import c08
         ctx = explore.explore(c08.sym(('sym', case[1], case[2])), max_paths=2000, decide_timeout_ms=30000)
+        return driver.result_from_ctx(ctx)
+    if case[0] == 'conc':
+        # whole chains whose dependants name one task by its long and another by the short form (shared with C08 (b))
+        from checks import c08
+        ctx = explore.explore(c08.conc(case), max_paths=2000, decide_timeout_ms=30000)
         return driver.result_from_ctx(ctx)
     instr.install(full=True)
     import taskchain.task as T
@@ -244,6 +251,8 @@ def run_case(case, tier):
 
 def replay_spec(v):
     i = v['info']
+    if 'names' not in i and 'pipeline' in i:
+        return {'module_override': 'checks.c08', 'case': v['case'], 'label': v['label'], 'inputs': v.get('model'), 'info': i}
     if 'names' not in i:
         # a counterexample of the dependant-input harness (shared with C08): replayed by the generic mechanism
         import ast
